@@ -408,8 +408,11 @@ class Interp:
         raise Untranslatable("non-numeric %s: %r" % (what, type(v).__name__))
 
     def binop(self, n):
-        a = self.num(self.expr(n.left))
-        b = self.num(self.expr(n.right))
+        return self.apply_binop(n, self.expr(n.left), self.expr(n.right))
+
+    def apply_binop(self, n, a, b):
+        a = self.num(a)
+        b = self.num(b)
         if isinstance(n.op, ast.Add):
             return v_add(a, b)
         if isinstance(n.op, ast.Sub):
